@@ -82,8 +82,10 @@ def _scalar_binop(op, a, b):
     if op == 'Pow':
         return power(a, b)
     sa = a if isinstance(a, Sym) else Sym.lift(a)
-    if op in ('Div', 'FloorDiv', 'Mod'):
-        # division by zero is an exception path
+    if op in ('Div', 'FloorDiv', 'Mod') and _I().type_tag(a) in ('int', 'bool') and _I().type_tag(b) in ('int', 'bool'):
+        # int/int division by zero is an exception path.  With a float operand the value may be a numpy float64,
+        # for which division by zero yields inf/nan and a warning, not an exception: no exception path is modelled
+        # (the quotient is then an unconstrained value), so a check never reports an exception numpy would not raise.
         interp = _I().current_interp()
         bz = eq(b, 0)
         if not (bz is False):
@@ -1507,6 +1509,39 @@ def np_ptp(interp, a, **k):
     return p
 
 
+@_np('zeros_like')
+def np_zeros_like(interp, a, dtype=None, **k):
+    a = _as_arr(a)
+    if (dtype is not None and _dtype_name(dtype).startswith('complex')) or (dtype is None and a.dtype == 'complex'):
+        return SArr(a.shape, lambda idx: SCplx(0, 0), 'complex')
+    return SArr(a.shape, lambda idx: 0, 'int' if a.dtype == 'int' and dtype is None else 'real')
+
+
+@_np('ones_like')
+def np_ones_like(interp, a, **k):
+    a = _as_arr(a)
+    return SArr(a.shape, lambda idx: 1, a.dtype if a.dtype != 'complex' else 'real')
+
+
+def _all_any(is_all):
+    def f(interp, a, axis=None, **k):
+        if not isinstance(a, SArr):
+            return interp.truth(a)
+        if axis is not None:
+            raise Unsupported("np.all/any with axis")
+        flat = A.reshape(a, (a.size(),)) if a.ndim != 1 else a
+        n = conc_int(flat.shape[0])
+        if n is None or n > 64:
+            raise Unsupported("np.all/any over a symbolic-length array")
+        vals = [to_bool(flat.at((q,))) if not isinstance(flat.at((q,)), bool) else flat.at((q,)) for q in range(n)]
+        return And(*vals) if is_all else Or(*vals)
+    return f
+
+
+LIB['numpy.all'] = _all_any(True)
+LIB['numpy.any'] = _all_any(False)
+
+
 @_np('isclose')
 def np_isclose(interp, a, b, rtol=Fraction(1, 10 ** 5), atol=Fraction(1, 10 ** 8), **k):
     f = lambda x, y: _sabs(x - y) <= atol + rtol * _sabs(y)
@@ -1938,7 +1973,9 @@ def sigma_clip(interp, data, **kw):
     def fn(idx):
         j = Sym(sel(Sym.lift(idx[0]).as_int()), 'int')
         return snap((j,))
-    return SArr((n,), fn, 'real')
+    res = SArr((n,), fn, 'real')
+    interp.__dict__.setdefault('sigma_clip_calls', []).append((data, res))
+    return res
 
 
 @lib('astropy.time.Time')
